@@ -531,6 +531,23 @@ def _workload(tier, rng, shard, nshards, work=None):
                 wav.replaceSegment(i0 / rate, i1 / rate, W.encode(new, wav.sampleWidth))
             REC.cls("C18:requery-after-in-place-edit")
             guarded(wav.findNearestZeroCrossing, t, st)
+    # the nearest crossing lies behind the next (short) entry: aligning the insertion point drags a boundary across that entry - refused
+    # (a praatio error) or done without losing it
+    for _far in range(3 if tier == "quick" else 20):
+        rate, n = 1000, rng.randrange(900, 1100)
+        cross = rng.randrange(590, 640)
+        samples = [rng.randrange(200, 2000) for _ in range(cross)] + [-rng.randrange(200, 2000) for _ in range(n - cross)]
+        wav = audio.Wav(W.encode(samples, 2), [1, 2, rate, n, "NONE", "not compressed"])
+        wav._vmon_wave = "single-crossing-behind-the-next-entry"
+        a_end = rng.choice([0.5, 0.48, 0.52])
+        words = [(0.2, a_end, "a"), (a_end + 0.05, a_end + 0.08, "b"), (0.7, 0.9, "c")]
+        tg = Textgrid()
+        tg.addTier(make_tier("I", "words", words, 0.0, n / rate), reportingMode="silence")
+        tg.addTier(make_tier("P", "marks", [(a_end, "m"), (0.8, "m2")], 0.0, n / rate), reportingMode="silence")
+        seg, _, _, _ = mk_wav(rng, "sine", n=rng.randrange(20, 60), width=2, rate=rate)
+        REC.cls("C18:splice:crossing-behind-the-next-entry")
+        guarded(praatio_scripts.audioSplice, wav.new(), seg, tg, "words", "NEW", a_end, None, True)
+        guarded(praatio_scripts.audioSplice, wav.new(), seg, tg, "words", "NEW", 0.2, a_end, True)
     nt = (1200 if tier == "quick" else 16000) // nshards
     for k in range(nt):
         rate = rng.choice((1000, 8000, 16000))
